@@ -232,6 +232,24 @@ def rule_pitfalls(prog, rep, tier, scope=None):
                     isinstance(t, ast.Name) and t.id == idx for tt in (st.targets if isinstance(st, ast.Assign) else [st.target]) for t in ast.walk(tt))]
                 if not defs or idx in f.params():
                     continue
+
+                def zero_based(st):
+                    """the definition makes idx a position that can be 0: the answer of a search (`s.find`, `.index`, a function that answers a tuple
+                    of positions), a loop counter; not a 1-based line number or anything else"""
+                    if isinstance(st, (ast.For, ast.comprehension)):
+                        it = st.iter
+                        if isinstance(it, ast.Name):
+                            ds = [x.value for x in ast.walk(f.node) if isinstance(x, ast.Assign) and any(isinstance(t, ast.Name) and t.id == it.id for t in x.targets)]
+                            it = ds[0] if len(ds) == 1 else it
+                        return isinstance(it, ast.Call) and isinstance(it.func, ast.Name) and it.func.id in ("range", "enumerate")
+                    v = st.value
+                    if isinstance(v, ast.Call) and isinstance(v.func, ast.Attribute) and v.func.attr in ("find", "rfind", "index", "rindex"):
+                        return True
+                    if isinstance(v, ast.Call) and any(isinstance(t, ast.Tuple) for t in st.targets):
+                        return True   # `start, end, found = search(..)`
+                    return False
+                if not any(zero_based(st) for st in defs):
+                    continue
                 n += 1
                 inst = "%s: %s" % (where, src(sub, 50))
                 ok = None
